@@ -25,6 +25,7 @@ EXPLANATION = (
     "scale invariance for non-integer weights."
     ' (R10, round 3) as C03.R9 for the cyclic class; the repetition cap of an ignored edge is structural (|E| + sum of the non-ignored flows), never a flow value or w_max.'
     ' (R10, round 4) cache ownership and purity of the reachability queries the default pruning reads (C17.R1 / R2).'
+    ' (R5, hunt 7) the cap of an edge outside every SCC is the literal 1 (min(1, cap) turns a flow-valued cap below 1 into the bound 0).'
 )
 DECIDED = ["search protocol on every path", "range reaches the largest attainable optimum", "lower-bound providers and width-call convention",
            "no process exit", "per-edge repetition caps: providers, overwrite discipline, bound and big-M tied to the cap"]
@@ -58,20 +59,15 @@ def repetition_caps(prog, rep, RID):
                 if isinstance(t, _ast.Subscript) and dotted(t.value) == "self.edge_upper_bounds":
                     n += 1
                     tests = _enclosing_tests(f.node, st)
-                    literal_one = isinstance(st.value, _ast.Constant) and st.value.value == 1
-                    lit1 = False
-                    # `min(1, <the cap itself>)`: lowered to 1, a smaller bound of the caller (0 forbids the edge, as documented) stays
-                    if isinstance(st.value, _ast.Call) and dotted(st.value.func) == "min" and len(st.value.args) == 2 and not st.value.keywords:
-                        a_, b_ = st.value.args
-                        one_ = [x for x in (a_, b_) if isinstance(x, _ast.Constant) and x.value == 1]
-                        self_ = [x for x in (a_, b_) if norm(x) == norm(t)]
-                        lit1 = len(one_) == 1 and len(self_) == 1
+                    lit1 = isinstance(st.value, _ast.Constant) and st.value.value == 1
                     guard = any((not pol and "self.G.is_scc_edge(" in norm(tt) and not norm(tt).startswith("not")) or
                                 (pol and norm(tt).startswith("not self.G.is_scc_edge(")) for tt, pol in tests)
-                    if literal_one and guard:
-                        rep.violation(RID, "AbstractWalkModelDiGraph.__init__:cap-overwrite", f"`{norm(st)}` sets the bound of every edge outside every SCC to 1 - also when the "
-                                      "caller gave a smaller one: max_edge_repetition_dict documents 'a value of 0 forbids the edge in any walk', but the walk s,a,t through "
-                                      "the forbidden edge ('s','a') is returned; the bound may be lowered to 1 (`min(1, bound)`), never raised", f.loc(st), self_contained=True)
+                    # `min(1, <the cap itself>)` looks like the careful form but is not: the cyclic error models pass flow values as caps, and a float flow below 1
+                    # turns into the bound 0 of an integer variable (repair 1ed69cd did that and was reverted by 620db2b)
+                    if isinstance(st.value, _ast.Call) and dotted(st.value.func) == "min" and guard:
+                        rep.violation(RID, "AbstractWalkModelDiGraph.__init__:cap-overwrite", f"`{norm(st)}` keeps a cap below 1 for an edge outside every SCC: the caps the cyclic error "
+                                      "models pass are flow values, below 1 for float flows, so the edge variable gets the upper bound 0 and kMinPathErrorCycles / kLeastAbsErrorsCycles "
+                                      "report valid instances with weights below 1 infeasible; such an edge is crossed at most once - the bound is 1", f.loc(st), self_contained=True)
                         continue
                     key = "AbstractWalkModelDiGraph.__init__:cap-overwrite"
                     if lit1 and guard:
